@@ -120,11 +120,15 @@ def module_path(rel):
 def parse_harnesses(unit, txt, sp=None):
     out = []
     ms = list(_HARN_RE.finditer(txt))
+    items = rustscan.scan(txt)
     for i, m in enumerate(ms):
         attrs = {}
         for kv in re.findall(r'(\w+)=("[^"]*"|\S+)', m.group(1)):
             attrs[kv[0]] = kv[1].strip('"')
         end = ms[i + 1].start() if i + 1 < len(ms) else len(txt)
+        fns = [it for it in items if it.kind == "fn" and it.name == m.group(3) and it.start >= m.start() and it.start < end]
+        if fns:
+            end = fns[0].end
         out.append(Harness(unit, m.group(3), attrs, txt[m.start():end], sp))
     return out
 
